@@ -41,6 +41,11 @@ class Construction:
       except:
         break
       first_tag = i
+    # the tags were initialized from the last to the first one:
+    # restore the order in which they are written in the line
+    for i in range(first_tag, len(strings)):
+      n = gfapy.Field._parse_gfa_tag(strings[i])[0]
+      self._data[n] = self._data.pop(n)
     self._delayed_initialize_positional_fields(strings, first_tag)
 
   def _delayed_initialize_positional_fields(self, strings, n_positional_fields):
